@@ -444,6 +444,13 @@ def run(ctx):
     from .c14 import _r5_excited_rows
     check_writer_row_index(ctx, repo.mod("seqm/MolecularDynamics.py"), "R5")
     _r5_excited_rows(ctx, repo, "R5")
+    ctx.rule("R6", "padding transparency by value: outputs interpreted on a padded symbolic batch (dipole; density builders of every solver arm) contain no padding-slot coordinate, "
+                   "no batch-mate symbol, and nothing on padding orbitals [EA+]")
+    from ..assembly import check_charges_and_dipole
+    try:
+        check_charges_and_dipole(ctx, "R6", parts=("padding",))
+    except AnalysisError as e_:
+        ctx.note(f"dipole routine not interpretable ({str(e_)[:100]}); its padding transparency is not decided here")
 
     # ------------------------------------------------------------------ R1
     check_rep_rows(ctx, "R1")
